@@ -8,6 +8,7 @@ Tie: normal form of the target after each history (copy.py / CanMatrix.merge) vs
 (X.attribute) vs the model's eff (cmd 1202)."""
 import copy as pycopy
 import json
+import os
 
 import core
 
@@ -346,6 +347,56 @@ def ids_of(db):
     return [(f.arbitration_id.id, bool(f.arbitration_id.extended)) for f in db.frames]
 
 
+def fkey(f):
+    return (f.arbitration_id.id, bool(f.arbitration_id.extended))
+
+
+def new_objects(now, before):
+    """the objects of a list that were not in it before (by identity)"""
+    return [x for x in now if not any(x is y for y in before)]
+
+
+def canon(groups):
+    if os.environ.get("VERIF_C12_EXACT_ORDER"):
+        return groups          # diagnostic switch: tie with every list and dict order as the model produces it
+    return _canon(groups)
+
+
+def _canon(groups):
+    """Normal form modulo the orders the property does not fix: ECU list, frame list, free-signal list, the define dicts, the
+    attribute dicts of every object, ENUM value lists, global attributes, environment variables.  Kept: the signals of a frame
+    in order, transmitter and receiver lists in order, every field.  Sorting is stable, so frames sharing an identifier
+    (malformed stream) keep their relative order."""
+    def sort_pairs(flat):
+        ps = sorted((flat[i], flat[i + 1]) for i in range(0, len(flat) - 1, 2))
+        return [z for p in ps for z in p]
+    ecus, blocks, free, defs, rest = [], [], [], [], []
+    for g in groups:
+        t = g[0]
+        if t == 1:
+            ecus.append(g[:3] + sort_pairs(g[3:]))
+        elif t == 2:
+            n = 8 + g[7]
+            blocks.append([g[:n] + sort_pairs(g[n:])])
+        elif t in (3, 4):
+            n = 5 + g[4]
+            h = g[:n] + sort_pairs(g[n:])
+            if t == 3 and blocks:
+                blocks[-1].append(h)
+            else:
+                free.append(h)
+        elif t == 5:
+            defs.append(g[:6] + sorted(g[6:]))
+        else:
+            rest.append(g)
+    ecus.sort(key=lambda g: g[1])
+    blocks.sort(key=lambda b: (b[0][1], b[0][2]))
+    free.sort()
+    defs.sort(key=lambda g: (g[1], g[2]))
+    rest.sort()
+    return ecus + [g for b in blocks for g in b] + free + defs + rest
+
+
 def frame_refs(f):
     return list(f.transmitters) + [r for s in f.signals for r in s.receivers]
 
@@ -356,6 +407,8 @@ def apply_op(chk, C, cp, orc, tdb, op, sdbs, I):
     kind = op["op"]
     snap = snapshot(tdb)
     ids_before = ids_of(tdb)
+    frames_before = list(tdb.frames)
+    sigs_before = list(tdb.signals)
     nframes_before = len(tdb.frames)
     ecus_before = {e.name for e in tdb.ecus}
     defs_before = {cat: set(getattr(tdb, DEFATTR[cat]).keys()) for cat in CATS}
@@ -396,47 +449,51 @@ def apply_op(chk, C, cp, orc, tdb, op, sdbs, I):
             if nf_matrix(I, tdb) != nf_before:
                 orc.bad("refused-changed", "a refused copy changed the target", want)
         else:
-            if res is not True or len(tdb.frames) != nframes_before + 1:
+            new = new_objects(tdb.frames, frames_before)
+            if res is not True or len(new) != 1 or fkey(new[0]) != want:
                 orc.bad("frame-not-copied", "frame with a new id was not copied", want, res)
             else:
-                sf = next(f for f in sdb.frames if (f.arbitration_id.id, bool(f.arbitration_id.extended)) == want)
-                tf = tdb.frames[-1]
-                orc.copied_frame(sf, sdb, tf, tdb, None)
+                sf = next(f for f in sdb.frames if fkey(f) == want)
+                orc.copied_frame(sf, sdb, new[0], tdb, None)
                 orc.brought_ecus(frame_refs(sf), ecus_before, sdb, tdb, False)
-                if ids_of(tdb)[:-1] != ids_before:
+                if sorted(ids_of(tdb)) != sorted(ids_before + [want]):
                     orc.bad("frame-set", "copy_frame changed the other frames of the target", want)
     elif kind == "merge":
+        # the frame rule for every frame of every source, sources and frames taken in the order given: the first frame that
+        # claims an identifier gets it.  WHERE the new frames stand in target.frames is not part of the property.
         taken = list(ids_before)
         exp = []
         for s in sdbs:
             for f in s.frames:
-                k = (f.arbitration_id.id, bool(f.arbitration_id.extended))
+                k = fkey(f)
                 if k not in taken:
                     taken.append(k)
                     exp.append((f, s))
-        if ids_of(tdb) != taken:
-            orc.bad("merge-frame-rule", "merge did not add exactly the frames whose ids were new, in order", taken, ids_of(tdb))
+        new = {fkey(f): f for f in new_objects(tdb.frames, frames_before)}
+        if sorted(ids_of(tdb)) != sorted(taken):
+            orc.bad("merge-frame-rule", "merge did not add exactly the frames whose ids were new", sorted(taken), sorted(ids_of(tdb)))
         else:
-            for (sf, s), tf in zip(exp, tdb.frames[nframes_before:]):
-                orc.copied_frame(sf, s, tf, tdb, None)
+            for sf, s in exp:
+                orc.copied_frame(sf, s, new[fkey(sf)], tdb, None)
                 orc.brought_ecus(frame_refs(sf), ecus_before, s, tdb, False)
                 ecus_before |= {e.name for e in tdb.ecus if e.name in frame_refs(sf)}
     elif kind == "ecu_frames":
+        # exactly the frames the requested ECUs send and/or receive, as requested, that were not present: a SET of identifiers
+        # (the property fixes neither the order of the passes nor the position of the copies in target.frames)
         wanted = [e.name for e in sdb.ecus if op["glob"] == "*" or e.name == op["glob"]]
-        exp = []
-        for n in wanted:
-            for phase in (("tx",) if op["tx"] else ()) + (("rx",) if op["rx"] else ()):
-                for f in sdb.frames:
-                    k = (f.arbitration_id.id, bool(f.arbitration_id.extended))
-                    hit = (n in f.transmitters) if phase == "tx" else any(n in s.receivers for s in f.signals)
-                    if hit and k not in ids_before and k not in [e[0] for e in exp]:
-                        exp.append((k, f))
-        if ids_of(tdb) != ids_before + [k for k, _ in exp]:
+        exp = {}
+        for f in sdb.frames:
+            k = fkey(f)
+            hit = any((op["tx"] and n in f.transmitters) or (op["rx"] and any(n in s.receivers for s in f.signals)) for n in wanted)
+            if hit and k not in ids_before and k not in exp:
+                exp[k] = f
+        new = {fkey(f): f for f in new_objects(tdb.frames, frames_before)}
+        if sorted(ids_of(tdb)) != sorted(ids_before + list(exp)):
             orc.bad("frame-set", "copy_ecu_with_frames did not copy exactly the frames the ECU sends/receives as requested",
-                    ids_before + [k for k, _ in exp], ids_of(tdb))
+                    sorted(ids_before + list(exp)), sorted(ids_of(tdb)))
         else:
-            for (k, sf), tf in zip(exp, tdb.frames[nframes_before:]):
-                orc.copied_frame(sf, sdb, tf, tdb, direct)
+            for k, sf in exp.items():
+                orc.copied_frame(sf, sdb, new[k], tdb, direct)
                 orc.brought_ecus(frame_refs(sf), ecus_before, sdb, tdb, direct)
         for n in wanted:
             if not any(e.name == n for e in tdb.ecus):
@@ -445,22 +502,30 @@ def apply_op(chk, C, cp, orc, tdb, op, sdbs, I):
     elif kind == "ecu":
         wanted = [e.name for e in sdb.ecus if op["glob"] == "*" or e.name == op["glob"]]
         orc.brought_ecus(wanted, ecus_before, sdb, tdb, False)
-        if ids_of(tdb) != ids_before:
+        if sorted(ids_of(tdb)) != sorted(ids_before):
             orc.bad("frame-set", "copy_ecu changed the frames of the target")
     elif kind == "signal":
         exp = [s for f in sdb.frames for s in f.signals if op["glob"] == "*" or s.name == op["glob"]]
-        new = tdb.signals[nfree_before:]
+        new = new_objects(tdb.signals, sigs_before)
         if len(new) != len(exp):
             orc.bad("signal-set", "copy_signal did not add exactly the matching signals", len(exp), len(new))
         else:
-            for ss, ts in zip(exp, new):
+            rest = list(new)
+            for ss in exp:
+                # its copy: a new free signal of that name equal to it field by field (position among the free signals is open)
+                cands = [ts for ts in rest if ts.name == ss.name]
+                ts = next((c for c in cands if not orc.fields_equal(ss, c, {"attributes"})), cands[0] if cands else None)
+                if ts is None:
+                    orc.bad("signal-set", "copy_signal did not add exactly the matching signals", ss.name, [x.name for x in rest])
+                    continue
+                rest = [x for x in rest if x is not ts]
                 d = orc.fields_equal(ss, ts, {"attributes"})
                 if d:
                     orc.bad("signal-fields", "copied signal differs from the source signal", dict(signal=ss.name), d[:3])
                 if mutable_ids(ss) & mutable_ids(ts):
                     orc.bad("copy-not-independent", "copied signal shares a mutable object with the source signal", dict(signal=ss.name))
                 orc.values_equal_source("sig", ss, sdb, ts, tdb, "signal")
-        if ids_of(tdb) != ids_before:
+        if sorted(ids_of(tdb)) != sorted(ids_before):
             orc.bad("frame-set", "copy_signal changed the frames of the target")
     return False, res
 
@@ -803,7 +868,8 @@ def run(chk):
         if case["cell"] and case["cell"].startswith("sig/STRING/tgt-different/src-default/byst-default") and case["history"][0][0]["op"] == "frame":
             chk.sample(dict(cell=case["cell"], request=case["history"][0][0],
                             bystander_value_after=own_eff(tdb.frames[0].signals[0].attributes, "sS", tdb.signal_defines),
-                            copied_value_after=own_eff(tdb.frames[-1].signals[0].attributes, "sS", tdb.signal_defines)), limit=3)
+                            copied_value_after=own_eff(next(f for f in tdb.frames if f.arbitration_id.id == 0x10).signals[0].attributes, "sS",
+                                                       tdb.signal_defines)), limit=3)
         lines.append(core.fmt_case(1201, groups))
         expect.append(exp)
         info.append(inp)
@@ -842,9 +908,10 @@ def run(chk):
                 chk.tie_break("copy-history", inf, "model: no error", "impl: raised")
             else:
                 err_agree += 1
-        elif got != exp:
+        elif got[0] != exp[0] or canon(got[1:]) != canon(exp[1:]):
             bad += 1
-            chk.tie_break("copy-history", inf, [g for g in got if g not in exp][:6], [g for g in exp if g not in got][:6])
+            cg, ce = canon(got[1:]), canon(exp[1:])
+            chk.tie_break("copy-history", inf, [got[0]] + [g for g in cg if g not in ce][:6], [exp[0]] + [g for g in ce if g not in cg][:6])
     bad2 = 0
     for inf, exp, o in zip(eff_info, eff_expect, out[len(lines):]):
         if core.parse_out(o) != exp:
@@ -857,8 +924,10 @@ def run(chk):
     idx = rng.sample(idx, min(300, len(idx)))
     shard = []
     for i in idx:
+        # model (extracted driver) vs implementation is decided above, modulo the open orders; the shard re-evaluates the same
+        # cases inside Coq and must reproduce the driver's answer exactly
         c, groups = lines[i].split(" ", 1)
-        shard.append((int(c, 16), core.parse_out(groups), expect[i]))
+        shard.append((int(c, 16), core.parse_out(groups), core.parse_out(out[i])))
     mm, log = core.coq_shard(shard, "c12")
     chk.ties["vm_compute_shard"] = {"cases": len(shard), "mismatches": mm}
     if mm is None:
